@@ -8,7 +8,6 @@ import Driver.Util
                `intRepr`, read back through `intsParse`); the five float vectors: hex tokens `,`-separated)
   morph <shape n,..|-> <vals u32,..|-> <fnum>
   annot <origIds 0|1> <fill 0|1> <has5 0|1> <labels int,..|-> <rows r:g:b:t:a;..|-> <names hex;..|->
-  annotU <origIds> <fill> <has5> <labels nat,..|-> <rows> <names>   write_annot with an UNSIGNED label dtype
   annot2 <fill 0|1> <has5 0|1> <labels> <rows> <names> <rgb r:g:b;..|-> <fill2 0|1>
         history: write_annot; read_annot; ctab[:, :3] = rgb; write_annot(fill_ctab=fill2); read_annot
   mgh   <shape> <dtype> <data u32,..|-> <affDelta u32,u32,u32> <ras hex (48 bytes)> <setZ `_`|u32,..|-> <ftrSets i:v;..|->
@@ -164,15 +163,6 @@ def handle : List String → String
             | .error e => "ok " ++ hexOf file ++ " R" ++ errStr e
             | .ok a => "ok " ++ hexOf file ++ " labels=" ++ showList a.labels ++ " ctab=[" ++
                 ",".intercalate (a.ctab.map showRow) ++ "] names=" ++ showHexList a.names
-      | _, _, _, _, _, _ => "bad-op"
-  | ["annotU", _orig, fill, has5, labels, rows, names] =>
-      match parseBool? _orig, parseBool? fill, parseBool? has5, parseIntList? labels, parseRows? rows,
-            parseHexList? ";" names with
-      | some _, some fill, some has5, some labels, some rows, some names =>
-          if labels.any (· < 0) then "bad-op" else
-          match writeAnnotUnsigned labels rows has5 names fill with
-          | .error e => errStr e
-          | .ok file => "ok " ++ hexOf file
       | _, _, _, _, _, _ => "bad-op"
   | ["annot2", fill, has5, labels, rows, names, rgb, fill2] =>
       match parseBool? fill, parseBool? has5, parseIntList? labels, parseRows? rows, parseHexList? ";" names,
